@@ -354,6 +354,11 @@ def main():
         try:
             searched = mod.search(ctx, broken)
             failures += list(searched.get("failures", []))
+        except INFRA_ERRORS:
+            C.eprint(traceback.format_exc())
+            print("tool failure in the failing-input search (infrastructure): " +
+                  traceback.format_exc().splitlines()[-1])
+            return 2
         except Exception:
             C.eprint(traceback.format_exc())
             broken.append("failing-input search crashed: " + traceback.format_exc().splitlines()[-1])
